@@ -615,10 +615,14 @@ theorem C15_gen_handlers {s : State} (h : Inv s) (F x : Name) (force : Bool) :
     have hsame : (if F != "" then F else "root") = (if F = "" then "root" else F) := by
       by_cases hF : F = "" <;> simp [hF]
     rw [hsame]
-    by_cases hc : (!force && (fsGetFile s (if F = "" then "root" else F) x false).isSome) = true
-    · simp [hc]
-    · simp only [hc, Bool.false_eq_true, if_false]
-      rcases hq : fsCreateFile s x F force with ⟨s', _ | f⟩ <;> simp
+    -- by cases on the two Booleans, so that the proof does not depend on how the source orders the operands of its `and`
+    cases force <;> cases hq : (fsGetFile s (if F = "" then "root" else F) x false).isSome <;>
+      simp only [Bool.not_true, Bool.not_false, Bool.and_true, Bool.true_and, Bool.and_false, Bool.false_and, Bool.false_eq_true,
+        if_true, if_false] <;>
+      first
+        | rfl
+        | (rcases hq2 : fsCreateFile s x F false with ⟨s', _ | f⟩ <;> simp)
+        | (rcases hq2 : fsCreateFile s x F true with ⟨s', _ | f⟩ <;> simp)
   · unfold hCreateFolderAction
     rw [C15_gen_create_folder]
   · unfold hAccessFileAction access
